@@ -278,7 +278,7 @@ def session_program(prog):
     body = []
     k = 0
     for f in sorted(prog):
-        if f == "foreign":
+        if f in ("foreign", "verifyOther"):
             continue
         for _ in range(prog[f]):
             kind, text = occurrence(f, k)
@@ -326,6 +326,15 @@ def session_replay_chunk(cases, extra):
                 if got != 0:
                     out.append({"case": rec, "source": src, "kind": "session", "step": pos, "f": f, "found": got, "pinned": None,
                                 "expected": 0, "earlier": [s["f"] for s in rec["hist"][:pos]]})
+                    break
+                continue
+            if f == "verifyOther":
+                # the instructor syntax-checks another text with the Source tool; says nothing about the submission
+                from pedal.source import verify
+                try:
+                    verify("pass\n", report=R)
+                except Exception as e:
+                    out.append({"case": rec, "source": src, "kind": "raised", "step": pos, "f": f, "detail": "%s: %s" % (type(e).__name__, e)})
                     break
                 continue
             truth = len(oracle(tree, f))
